@@ -213,6 +213,7 @@ struct BoxRunner {
 	void begin() { addrs().add_pseudo(f, sizeof f, 1001); }
 	bool apply(const Op &o) {
 		if(o.name == "value") { f[o.d - 1].initialize(o.x); s[o.d - 1].emplace(o.x); }
+		else if(o.name == "value_with") { long long x = o.x; f[o.d - 1].construct_with([x] { return T(x); }); s[o.d - 1].emplace(o.x); }
 		else if(o.name == "destruct") { f[o.d - 1].destruct(); s[o.d - 1].reset(); }
 		else return false;
 		return true;
